@@ -86,11 +86,18 @@ METHODS = ["assign", "assign", "set_index", "iloc", "concat"]
 FAMILY = ["embedding", "text_embedded", "image_embedded", "embedding", "numerical", "categorical"]
 
 
-def gen_case(rng):
+CHEAP = ["embedding", "numerical", "categorical", "text_embedded", "numerical"]
+LARGE_ROWS = [256, 257, 513]
+
+
+def gen_case(rng, n=None):
     while True:
         # a fifth of the frames is drawn from the embedding family only, so that `embedding` columns whose names
         # sort before, between and after text_/image_embedded columns are common
-        fr = G.gen_frame(rng, index_kinds=["range"], stypes=FAMILY if rng.chance(0.2) else None)
+        if n is not None:       # a LARGE frame (batch boundaries): cheap stypes only
+            fr = G.gen_frame(rng, index_kinds=["range"], stypes=CHEAP, n=n)
+        else:
+            fr = G.gen_frame(rng, index_kinds=["range"], stypes=FAMILY if rng.chance(0.2) else None)
         tgt = next((c for c in fr["cols"] if c["name"] == fr["target"]), None)
         if tgt is not None and tgt["stype"] == "categorical" and fr["n"] < 2:
             continue                       # Dataset.num_classes asserts >= 2 classes
@@ -184,6 +191,7 @@ def run_keyless(case):
 def generate(rng, tier):
     n = 160 if tier == "quick" else 5000
     cases = [gen_case(rng) for _ in range(n)] + [{"kind": "keyless"}]
+    cases += [gen_case(rng, n=r) for r in LARGE_ROWS]
     if tier == "thorough":
         cases += exhaustive_orders(rng)
     return cases
@@ -600,6 +608,23 @@ def stats(cases, obss):
         key = f"{c['label_kind']}/{'named' if iname is not None else 'unnamed'}"
         d["label_x_name"][key] = d["label_x_name"].get(key, 0) + 1
         d["rows"][len(c["rows"])] = d["rows"].get(len(c["rows"]), 0) + 1
+        b = d.setdefault("boundaries", {})
+        if len(c["rows"]) >= 256:
+            b["rows>=256"] = b.get("rows>=256", 0) + 1
+        if len(c["rows"]) == 1:
+            b["one-row-frame"] = b.get("one-row-frame", 0) + 1
+        for x in fr["cols"]:
+            cells = [x["cells"][r] for r in c["rows"]]
+            if x["stype"] == "embedding" and x.get("width") == 1:
+                b["embedding-width-1"] = b.get("embedding-width-1", 0) + 1
+            if x["stype"] == "categorical":
+                from collections import Counter
+                cnt = sorted(Counter(str(v) for v in cells if v is not None).values(), reverse=True)
+                if len(cnt) >= 2 and cnt[0] == cnt[1]:
+                    b["tied-categories/" + c["label_kind"]] = b.get("tied-categories/" + c["label_kind"], 0) + 1
+            lab = labels_of(c)
+            if any(v is None and [str(z) for z in lab].count(str(lab[i])) > 1 for i, v in enumerate(cells)):
+                b["missing-cell-on-duplicated-label"] = b.get("missing-cell-on-duplicated-label", 0) + 1
         tgt = next((x["stype"] for x in fr["cols"] if x["name"] == fr["target"]), "none")
         d["target"][tgt] = d["target"].get(tgt, 0) + 1
         tcol = next((x for x in fr["cols"] if x["name"] == fr["target"]), None)
@@ -676,6 +701,8 @@ def coq_term(case, obs):
     V = obs.get("variants", {})
     if not all(V.get(t, {}).get("ok") for t in "ABCD"):
         return None
+    if len(case["rows"]) > 64:
+        return None     # large frames: every cell is judged by the oracle; the Coq evaluation stops at 64 rows
     eff = effective(case)
     parsed = V["A"]["parsed"]
     tgt = "None" if eff["target"] is None else f"(Some {M.pstr(eff['target'])})"
@@ -733,6 +760,10 @@ def sanity(cases, obss):
     for k in M.missing_forms(d, extra=["cfg=single", "cfg=dict"]):
         if k != "path=True":
             probs.append(f"signature form {k} never drawn")
+    for k in (["rows>=256", "one-row-frame", "embedding-width-1", "missing-cell-on-duplicated-label"] +
+              ["tied-categories/" + i for i in LABEL_KINDS + ["positions"]]):
+        if d.get("boundaries", {}).get(k, 0) == 0:
+            probs.append(f"boundary {k} never drawn")
     if d.get("keyless_witness") != {"tok-first": False, "num-first": True}:
         probs.append(f"the key-less tokenizer witness behaves differently from Props/C02.v: {d.get('keyless_witness')}")
     if d.get("eq_operator_uses", 0) == 0:
